@@ -10,10 +10,10 @@ import (
 
 // PageSpec describes one generated page.
 type PageSpec struct {
-	Marker     string
-	Rotate     *int       // nil: inherited from the intermediate node
-	MediaBox   *[4]float64 // nil: inherited
-	CropBox    *[4]float64
+	Marker   string
+	Rotate   *int        // nil: inherited from the intermediate node
+	MediaBox *[4]float64 // nil: inherited
+	CropBox  *[4]float64
 }
 
 // Doc builds a document. Pages are grouped into intermediate nodes of groupSize pages; group g
